@@ -155,7 +155,24 @@ def run_once(ctx, ns):
     return args
 
 
-def h_persist(ctx, opt):
+def lib_nick(opt):
+    """a server nickname of the bundled FI database whose value for opt differs from the built-in default (or None)"""
+    for nick in ofxget.LIBCFG.sections():
+        if nick == "NAMES":
+            continue
+        v = ofxget.read_config(ofxget.LIBCFG, nick).get(opt)
+        if v is not None and v != ofxget.DEFAULTS.get(opt):
+            return nick
+    return None
+
+
+rt.NATIVE_FUNCS.add(lib_nick)
+
+
+def h_persist(ctx, opt, libserver=False):
+    server = lib_nick(opt) if libserver else SERVER
+    if server is None:
+        return
     d = fresh_dir()
     try:
         path = os.path.join(d, "ofxget.cfg")
@@ -164,12 +181,12 @@ def h_persist(ctx, opt):
         ctx.stub(ofxhome, "lookup", lambda id_: None)
         prior = ctx.bool("prior_value_in_file")
         if prior:
-            write_text(path, "[" + SERVER + "]\nurl = https://old.example/ofx\n" + (f"{opt} = {ini_value(PRIOR[opt])}\n" if opt != "url" else ""))
+            write_text(path, "[" + server + "]\nurl = https://old.example/ofx\n" + (f"{opt} = {ini_value(PRIOR[opt])}\n" if opt != "url" else ""))
         cands = CANDIDATES[opt]
         v = cands[ctx.choice("value", list(range(len(cands))))]
         dry = ctx.bool("dryrun")
         before = read_text(path)
-        ns = argparse.Namespace(server=SERVER, request="stmt", write=True, dryrun=dry, password="hunter2", url="https://a.example/ofx" if opt != "url" else None)
+        ns = argparse.Namespace(server=server, request="stmt", write=True, dryrun=dry, password="hunter2", url="https://a.example/ofx" if opt != "url" else None)
         setattr(ns, opt, v)
         failed = None
         if isinstance(v, str) and "%" in v and ctx.known("C18-percent-in-value-breaks-write"):
@@ -190,14 +207,14 @@ def h_persist(ctx, opt):
             return
         ctx.check("the password is never stored", after is not None and "hunter2" not in after)
         # run again without the option on the command line
-        ns2 = argparse.Namespace(server=SERVER, request="stmt", dryrun=True)
+        ns2 = argparse.Namespace(server=server, request="stmt", dryrun=True)
         args2 = run_once(ctx, ns2)
         ctx.check("running again without the command-line option yields the saved value", args2[opt] == v)
         # a generated default CLIENTUID is kept across runs
         cfg = ofxget.UserConfig()
         cfg.read([path])
         cu1 = cfg[cfg.default_section].get("clientuid")
-        ns3 = argparse.Namespace(server=SERVER, request="stmt", write=True, dryrun=False, language="FRA")
+        ns3 = argparse.Namespace(server=server, request="stmt", write=True, dryrun=False, language="FRA")
         run_once(ctx, ns3)
         cfg = ofxget.UserConfig()
         cfg.read([path])
@@ -234,5 +251,7 @@ def instances(tier, seed):
         out.append(dict(name=f"precedence[{o}]", harness="precedence", fn=h_precedence, params=dict(opt=o), opts=dict(wall_s=120)))
     for o in CANDIDATES:
         out.append(dict(name=f"persist[{o}]", harness="persist", fn=h_persist, params=dict(opt=o), opts=dict(wall_s=300)))
+        if lib_nick(o) is not None:
+            out.append(dict(name=f"persist[{o},FI database nickname]", harness="persist", fn=h_persist, params=dict(opt=o, libserver=True), opts=dict(wall_s=300)))
     out.append(dict(name="layering", harness="layering", fn=h_layering, params={}, opts=dict(wall_s=30)))
     return out
